@@ -507,6 +507,48 @@ func (g *CallGraph) Reachable(roots ...*ssa.Function) map[*ssa.Function]bool {
 	return seen
 }
 
+// OnlyThrough: every call chain from an entry point to fn passes through gate (fn is the gate itself, or is
+// not reachable once the gate is taken out of the graph). This is what makes "f is called only inside g"
+// robust against g being split into private helpers.
+func (p *Prog) OnlyThrough(fn, gate *ssa.Function) bool {
+	fn, gate = topFunc(fn), topFunc(gate)
+	if fn == gate {
+		return true
+	}
+	g := p.CG()
+	seen := map[*ssa.Function]bool{}
+	var stack []*ssa.Function
+	roots := p.Entries()
+	for _, f := range p.Funcs {
+		// package initialisers and String/Error methods run outside any gate
+		if f.Signature.Recv() != nil && (f.Name() == "String" || f.Name() == "Error") {
+			roots = append(roots, f)
+		}
+	}
+	for _, r := range roots {
+		r = topFunc(r)
+		if r != gate && !seen[r] {
+			seen[r] = true
+			stack = append(stack, r)
+		}
+	}
+	for len(stack) > 0 {
+		f := stack[len(stack)-1]
+		stack = stack[:len(stack)-1]
+		for _, q := range append([]*ssa.Function{f}, allAnon(f)...) {
+			for _, e := range g.Out[q] {
+				c := topFunc(e.Callee)
+				if c == gate || seen[c] {
+					continue
+				}
+				seen[c] = true
+				stack = append(stack, c)
+			}
+		}
+	}
+	return !seen[fn]
+}
+
 // PathTo returns one call path (function names) from any root to target, for reports.
 func (g *CallGraph) PathTo(roots []*ssa.Function, target *ssa.Function) []string {
 	prev := map[*ssa.Function]*ssa.Function{}
